@@ -256,6 +256,14 @@ def solve_ode_bvp(
             conds.append(bonds[i][deriv] - value)
         return np.array(conds)
 
+    # exact derivative of the boundary condition, a finite-difference estimate of it cancels to zero
+    #   (singular Jacobian) once the boundary values are much larger than the initial guess.
+    def bc_jac(ya, yb):
+        dbc_dya, dbc_dyb = np.zeros((order, order)), np.zeros((order, order))
+        for row, (i, deriv, _) in enumerate(bd_cond):
+            (dbc_dya, dbc_dyb)[i][row, deriv] = 1.0
+        return dbc_dya, dbc_dyb
+
     # Generate random initial guess if not provided.
     if initial_guess_y is None:
         initial_guess_y = np.random.rand(order, x.size)
@@ -263,9 +271,13 @@ def solve_ode_bvp(
     # Solve the ODE
     if transform:
         pts_tf = transform.transform(x)
-        res = solve_bvp(func, bc, pts_tf, y=initial_guess_y, tol=tol, max_nodes=max_nodes)
+        res = solve_bvp(
+            func, bc, pts_tf, y=initial_guess_y, tol=tol, max_nodes=max_nodes, bc_jac=bc_jac
+        )
     else:
-        res = solve_bvp(func, bc, x, y=initial_guess_y, tol=tol, max_nodes=max_nodes)
+        res = solve_bvp(
+            func, bc, x, y=initial_guess_y, tol=tol, max_nodes=max_nodes, bc_jac=bc_jac
+        )
 
     # raise error if didn't converge
     if res.status != 0:
